@@ -16,14 +16,16 @@ MANIFEST = dict(
           "(mse, mae, hinge, squared-hinge, pinball as Eigen evaluates them, incl. the values returned on the kinks; exponential, "
           "logistic, cauchy, savage, tangent as real specifications), the error rules, the closed-form benchmark functions and the "
           "ball / linear constraints. For every modelled object that the SOURCE declares convex -- 7 loss kernels, sphere, axis "
-          "ellipsoid, schumer-steiglitz, chung-reynolds, sargan, zakharov, chained_lq, exponential, ball and linear constraints -- "
+          "ellipsoid, schumer-steiglitz, chung-reynolds, sargan, zakharov, chained_lq, chained_cb3I/II, exponential, ball and linear "
+          "constraints -- "
           "the sub-gradient inequality f(z) >= f(x) + g(x).(z-x) + mu/2 |z-x|^2 with the declared coefficient for all x, z; witnesses "
-          "that qing, styblinski-tang, rosenbrock, dixon-price (declared non-convex) are not convex; the convexity claim of "
-          "chained_cb3I is refuted on an exact tie (candidate finding); Coquelicot derivatives of the smooth loss kernels, lifted "
+          "that qing, styblinski-tang, rosenbrock, dixon-price (declared non-convex) are not convex; chained_cb3I and chained_cb3II "
+          "with the tie rule of the source (gradient of an active piece; the pre-fix rule is refuted on the tie (2,-3)); Coquelicot derivatives of the smooth loss kernels, lifted "
           "to whole samples along every direction, and of the separable polynomial functions; loss values are non-negative, a "
           "sample's loss depends on its own row only, the 0-1 errors equal the first-arg-max / sign decision rule. The convex / "
           "smooth / strong-convexity declarations of 52 objects (24 benchmark sources, 5 elastic-net losses, 11 loss kernels + "
-          "pinball, 5 constraint families, 6 ML objectives) are re-parsed from the working tree on every run into a Coq table; "
+          "pinball, 5 constraint families, 6 ML objectives) and the matrix whose eigenvalues nano::convex(P) / strong_convexity(P) "
+          "inspect are re-parsed from the working tree on every run into a Coq table; "
           "every theorem carries the declaration it justifies, so a changed flag breaks the proof side. The exact-rational instance "
           "of the same definitions is extracted and compared with the library on the doubles it saw (1e-9 of the summed "
           "magnitudes; 0-1 errors and sizes exactly); independent C++ oracles (central differences along random and coordinate "
@@ -31,12 +33,13 @@ MANIFEST = dict(
           "violation, batch == one-by-one, decision rules) run on all 48 prototypes, 17 losses, 11 constraint kinds (incl. "
           "non-symmetric quadratic forms) and the linear / gboost / surrogate objectives over random datasets and produce the "
           "concrete failing input."),
-    note=("Coq kernel + standard real-number axioms + Coquelicot; regular-expression flag parser and translator (6 size kernels) in "
+    note=("Coq kernel + standard real-number axioms + Coquelicot; regular-expression flag parser and translator (6 size kernels + the 4 branch tests of chained_cb3I/II) in "
           "tools/; extraction (ExtrOcamlBasic, exact Q); harness against the library built from the working tree + OCaml driver; "
           "floating-point rounding is outside the theorems (compared within 1e-9 / searched with tolerances); objects without a "
-          "convexity theorem (class-NLL, trid, rotated ellipsoid, maxq, quadratic, geometric, maxquad, maxhilb, kinks, cb3II, elastic "
-          "net, coordinate / quadratic / functional constraints, all ML objectives) are searched only; three candidate findings of "
-          "the unchanged code are reported in the evidence without failing (notes/C06.md)."),
+          "convexity theorem (class-NLL, trid, rotated ellipsoid, maxq, quadratic, geometric, maxquad, maxhilb, kinks, elastic "
+          "net, coordinate / quadratic / functional constraints, all ML objectives) are searched only; directed probes (exact cb3 "
+          "ties, non-symmetric P) guard the fixes 114b02b / 3feb922; one known finding (linear strong convexity ignores the "
+          "unregularised bias, notes/C06.md)."),
     technique="Coq proof over R of a model shared with its extracted exact-rational instance, source-parsed declaration table, "
               "differential correspondence, direct property oracles on the implementation",
     design="DESIGN.md section 2, C06")
@@ -44,11 +47,12 @@ MANIFEST = dict(
 VARIANTS = ["rel"]
 HARNESS = "c06_objects"
 
-# Candidate findings of the UNCHANGED code (see notes/C06.md); they gate only once listed in known_findings.json.
+# Findings of the unchanged code (see notes/C06.md). LINEAR_FP is listed in known_findings.json (integrator decision): it is reported
+# through r.violation(..., fingerprint=) => `KNOWN-FINDING:` line, exit 0. Were it removed from known_findings.json it would be
+# reported under coverage.candidate_findings without failing. The two other candidates of the first build (chained_cb3 tie
+# gradient, convexity of a non-symmetric P) were FIXED in /repo (114b02b, 3feb922): a hit is a plain violation again.
 LINEAR_FP = "C06-linear-strong-convexity-ignores-unregularised-bias"
-CB3_FP = "C06-chained-cb3-tie-returns-gradient-of-inactive-piece"
-QUADNS_FP = "C06-quadratic-constraint-convexity-of-nonsymmetric-P"
-CANDIDATES = [LINEAR_FP, CB3_FP, QUADNS_FP]
+CANDIDATES = [LINEAR_FP]
 
 
 # ------------------------------------------------------------------------------------------------
@@ -125,6 +129,14 @@ def parse_flags():
         cons[m.group(2)][m.group(1)] = _norm(m.group(3))
     for kind, d in cons.items():
         flags["cons:" + kind] = (d.get("convex", ""), d.get("smooth", ""), d.get("strong_convexity", ""))
+    # how nano::convex(P) / nano::strong_convexity(P) decide (src/function/util.cpp): the matrix whose eigenvalues are inspected
+    src = _read("src/function/util.cpp")
+    for fn, key in (("bool nano::convex", "util:convex(P)"), ("scalar_t nano::strong_convexity", "util:strong_convexity(P)")):
+        m = re.search(re.escape(fn) + r"\(const matrix_t& P\)\s*\{(.*?)\n\}", src, re.S)
+        e = re.search(r"eigenvalues\s*=\s*([^;]*);", m.group(1)) if m else None
+        if not e:
+            raise vlib.CheckError("flags: cannot find the eigenvalue expression of %s in util.cpp" % fn)
+        flags[key] = ("".join(e.group(1).split()), "", "")
     # ML objectives: one chunk per constructor
     for rel in ("src/linear/function.cpp", "src/gboost/function.cpp", "src/tuner/surrogate.cpp"):
         src = _read(rel)
@@ -203,41 +215,12 @@ def _group(family):
     return {"loss": "loss", "fn": "fn", "cons": "cons", "ml": "ml"}.get(family.split(":", 1)[0], "")
 
 
-def _cb3_tie(l, fam):
-    """the point x=[...] of a FAIL line of chained_cb3I/II sits on an exact tie where the code's branch structure
-    (`v1 > max(v2,v3)` / `v2 > max(v1,v3)` / else: gradient of v3) returns the gradient of v3 although v3 is not the maximum
-    (same double arithmetic as the C++: products and sums in the same order)"""
-    import math
-    m = re.search(r" x=\[([^\]]*)\]", l)
-    if not m:
-        return False
-    try:
-        x = [float.fromhex(t) for t in m.group(1).split(",") if t]
-    except ValueError:
-        return False
-    def pieces(a, b):
-        return (a * a) * (a * a) + b * b, (2.0 - a) * (2.0 - a) + (2.0 - b) * (2.0 - b), 2.0 * math.exp(-a + b)
-    def stale(v1, v2, v3):
-        return not (v1 > max(v2, v3)) and not (v2 > max(v1, v3)) and v3 < max(v1, v2)
-    pairs = [pieces(x[i], x[i + 1]) for i in range(len(x) - 1)]
-    if fam == "fn:chained_cb3I":
-        return any(stale(*p) for p in pairs)
-    s1 = s2 = s3 = 0.0
-    for v1, v2, v3 in pairs:
-        s1, s2, s3 = s1 + v1, s2 + v2, s3 + v3
-    return bool(pairs) and stale(s1, s2, s3)
-
-
 def _candidate_of(l, probes):
-    """fingerprint of the candidate finding a FAIL line belongs to (None: a plain violation)"""
+    """fingerprint of the known / candidate finding a FAIL line belongs to (None: a plain violation)"""
     p = l.split(" ", 2)
     clause, fam = p[1], _family(l)
     if clause == "strong-convexity" and re.match(r"ml:linear\(.*,l2\)$", fam) and probes.get("linear-strong-convexity"):
         return LINEAR_FP
-    if clause in ("convexity", "subgradient") and fam in ("fn:chained_cb3I", "fn:chained_cb3II") and probes.get("cb3-tie") and _cb3_tie(l, fam):
-        return CB3_FP
-    if clause in ("convexity", "strong-convexity") and fam in ("cons:quadratic-eq(ns)", "cons:quadratic-ineq(ns)") and probes.get("quadratic-nonsymmetric"):
-        return QUADNS_FP
     return None
 
 
@@ -254,7 +237,8 @@ def _replay(path):
         return 0
     vlib.build_harness(HARNESS, "rel", need_lib=True)
     rc, out = vlib.sh(cmd, timeout=3000)
-    bad = [l for l in out.split("\n") if l.startswith(("FAIL ", "MISMATCH", "PROPFAIL"))]
+    bad = [l for l in out.split("\n") if l.startswith(("FAIL ", "MISMATCH", "PROPFAIL"))
+           or (l.startswith("PROBE ") and l.endswith("| violated") and not l.startswith("PROBE linear-strong-convexity"))]
     fam = d.get("family")
     if fam:
         bad = [l for l in bad if not l.startswith("FAIL ") or _family(l) == fam]
@@ -291,8 +275,19 @@ def run(tier, replay=None):
     for l in fails:
         fp = _candidate_of(l, probes)
         (cand[fp] if fp else plain).append(l)
-    for fp, key in ((LINEAR_FP, "linear-strong-convexity"), (CB3_FP, "cb3-tie"), (QUADNS_FP, "quadratic-nonsymmetric")):
-        cand[fp] = probes.get(key, []) + cand.get(fp, [])
+    cand[LINEAR_FP] = probes.get("linear-strong-convexity", []) + cand.get(LINEAR_FP, [])
+    # directed probes of the two FIXED defects (exact cb3 ties, non-symmetric P): a violated probe is a concrete failing input
+    for key in ("cb3-tie", "quadratic-nonsymmetric"):
+        if probes.get(key):
+            first = probes[key][0]
+            r.violation("probe-%s" % key, {"kind": "directed probe violated: " + {
+                "cb3-tie": "chained_cb3I/II declare convex, but on an exact tie v1 == v2 > v3 the returned vector is not a sub-gradient "
+                           "(the gradient of an inactive piece): /repo 114b02b reverted?",
+                "quadratic-nonsymmetric": "a quadratic constraint with a non-symmetric P is declared (strongly) convex although "
+                                          "1/2 x'Px + q'x + r violates the inequality: convexity must be decided by 0.5*(P+P'), /repo 3feb922 reverted?"}[key],
+                "case": first[:3000], "violated_probes": len(probes[key]), "all": [l[:600] for l in probes[key][:8]],
+                "replay_cmd": cmd("probe") + " | grep '^PROBE %s .*violated$'" % key,
+                "meaning": "PROBE name | object and points x, z (C hex floats) | declared flags, f(x), gradient, f(z), f(x)+g.(z-x)+mu/2|z-x|^2 | verdict"})
     seen = set()
     for l in plain:
         key = (l.split(" ", 2)[1], _family(l))
@@ -308,11 +303,7 @@ def run(tier, replay=None):
                      "meaning": "FAIL clause object(description sufficient to rebuild it) | family | numbers as C hex floats: x, z, "
                                 "gradient, value(s); the replay command regenerates the case from VERIF_SEED"})
     what = {LINEAR_FP: "linear::function_t declares strong_convexity = l2/(isize*tsize) but the bias is not regularised: the objective is "
-                       "not strongly convex along the bias (piecewise-linear losses: affine there)",
-            CB3_FP: "chained_cb3I/II return the gradient of the INACTIVE piece v3 on an exact tie v1 == v2 > v3 (declared convex: not a "
-                    "sub-gradient there)",
-            QUADNS_FP: "quadratic constraints declare convexity / strong convexity from the eigenvalues of P, not of its symmetric part: "
-                       "a non-symmetric P with positive eigenvalues and an indefinite symmetric part is declared convex"}
+                       "not strongly convex along the bias (piecewise-linear losses: affine there)"}
     candidates = []
     for fp in CANDIDATES:
         sel = cand.get(fp, [])
@@ -365,7 +356,7 @@ def run(tier, replay=None):
     vlib.proof_coverage(r, cres, "make -C coq theories/Properties_C06.vo && coqc theories/Properties_C06.v (Print Assumptions)",
                         ["tools/checks/c06.py: parser of the convex/smooth/strong_convexity declarations (regular expressions over "
                          "src/function/benchmark/*.cpp, elastic_net.h, flatten.h, pinball.cpp, constraint.cpp, linear/gboost/surrogate constructors)",
-                         "tools/translate.py (6 size kernels)",
+                         "tools/translate.py (6 size kernels, 4 branch tests of chained_cb3I/II)",
                          "extraction: ExtrOcamlBasic (exact Q on the inductive Z/positive)",
                          "the hand-written formulas of C06_Defs.v (tied by the exact-rational correspondence on every run)",
                          "ocaml/c06_driver.ml (exact double->Q conversion, 1e-9 comparison), harness/c06_objects.cpp (tolerances of the direct "
@@ -392,6 +383,7 @@ def run(tier, replay=None):
     cov["impl_direct_failures"] = len(plain)
     cov["mismatches"] = len(mism)
     cov["candidate_findings"] = candidates
+    cov["known_findings_hit"] = [{"fingerprint": fp, "failures": len(cand.get(fp, []))} for fp, _ in r.known_hits]
     cov["coq_side"] = "ok" if cres["ok"] else "BROKEN: %s" % cres["broken"]
     cov["declared_flags"] = {k: list(v) for k, v in sorted(flags.items())}
     convex_decl = sorted(k for k, v in flags.items() if v[0] == "yes")
@@ -412,7 +404,7 @@ UNPROVED = [
     "rosenbrock, dixon-price, powell, zakharov, chung-reynolds, sargan, exponential, cauchy, geometric, cb3, maxq, ...): exact-Q "
     "correspondence with the closed forms where algebraic + central differences on the implementation",
     "convexity of class-NLL (log-sum-exp), trid, rotated ellipsoid, maxq, quadratic (random psd matrix), geometric-optimization, "
-    "maxquad, maxhilb, kinks, chained_cb3II, elastic-net objectives, constant / minimum / maximum / quadratic / functional "
+    "maxquad, maxhilb, kinks, elastic-net objectives, constant / minimum / maximum / quadratic / functional "
     "constraints, linear / gboost / surrogate-fit ML objectives: convexity inequality with hill-climbing on the implementation only",
     "class-NLL adds machine epsilon inside the logarithm: value differs from the ideal log-sum-exp by <= 2.3e-16 (inside every tolerance; "
     "searched through central differences, the convexity inequality and non-negativity: no failure)",
